@@ -92,6 +92,7 @@ class FuncInfo:
             self.params.append(a.kwarg.arg)
         self.decorators = list(getattr(node, "decorator_list", []))
         self._locals: Optional[set] = None
+        self._local_imports: Optional[dict] = None
 
     @property
     def body(self):
@@ -124,6 +125,24 @@ class FuncInfo:
             self._locals = s - g
             self._globals_declared = g
         return self._locals
+
+    def local_imports(self, model) -> dict:
+        """Function-level imports: local name -> dotted target."""
+        if self._local_imports is None:
+            d = {}
+            for n in walk_scope(self.node):
+                if isinstance(n, ast.Import):
+                    for al in n.names:
+                        if al.asname:
+                            d[al.asname] = al.name
+                        else:
+                            d[al.name.split(".")[0]] = al.name.split(".")[0]
+                elif isinstance(n, ast.ImportFrom):
+                    base = model._resolve_relative(self.module, n.level, n.module)
+                    for al in n.names:
+                        d[al.asname or al.name] = f"{base}.{al.name}" if base else al.name
+            self._local_imports = d
+        return self._local_imports
 
     def declared_global(self) -> set:
         self.local_names()
@@ -442,6 +461,11 @@ class Model:
                 if name in s.params:
                     return Binding("param" if first else "freevar", None, name, owner=s)
                 if name in s.local_names():
+                    li = s.local_imports(self)
+                    if name in li:
+                        b = self.resolve_dotted(li[name])
+                        b.name = name
+                        return b
                     return Binding("local" if first else "freevar", None, name, owner=s)
                 first = False
             elif isinstance(s, ClassInfo):
